@@ -42,7 +42,7 @@ REQUIRED = ["cases", "ctl_cases", "sw_cases", "hostile_units", "closed_by_input"
             "frames_walked", "budget_armed", "hostile_during_handshake",
             "hostile_and_valid_traffic_in_one_segment", "declared_length_below_8_judged",
             "hostile_completed_while_siblings_are_ready",
-            "frames_shorter_than_their_type"]
+            "frames_shorter_than_their_type", "sibling_statistics_events_checked"]
 TIMEOUT = {"quick": 1200, "thorough": 9000}
 
 _st = {}
@@ -53,6 +53,21 @@ def marker_pi (xid):
   return ofwire.enc_message("packet_in", dict(
     xid=xid, buffer_id=0xffffffff, total_len=14, in_port=1, reason=0,
     data=b"\xff" * 6 + b"\x02\0\0\0\0\x01\x88\xb5"))
+
+
+SIBX = 0x00c0ffee
+
+def port_stats_reply (xid, ids, more):
+  """A (part of a) port statistics reply; ids end up in rx_packets."""
+  def entry (i):
+    d = dict(port_no=i & 0xffff)
+    for k in ("rx_packets", "tx_packets", "rx_bytes", "tx_bytes", "rx_dropped",
+              "tx_dropped", "rx_errors", "tx_errors", "rx_frame_err",
+              "rx_over_err", "rx_crc_err", "collisions"):
+      d[k] = i
+    return d
+  return ofwire.enc_message("stats_reply", dict(
+    xid=xid, type=4, flags=1 if more else 0, body=[entry(i) for i in ids]))
 
 
 def marker_echo (xid):
@@ -90,6 +105,11 @@ class CtlRig (object):
     self.next_dpid = 1000
     self.pins = []
     self.w.core.openflow.addListenerByName("PacketIn", self._pin)
+    self.stats = []
+    self.w.core.openflow.addListenerByName("PortStatsReceived", self._stats)
+
+  def _stats (self, e):
+    self.stats.append((id(e.connection.sock), [x.rx_packets for x in e.stats]))
 
   def _pin (self, e):
     self.pins.append((id(e.connection.sock), e.ofp.xid))
@@ -303,6 +323,24 @@ def ctl_case (rig, case, rep, fire):
       return
     if P["con"].disconnected:
       fire("sibling connection closed (controller)", name); return
+  # ... and what the controller makes of a sibling's messages is made of that
+  # sibling's messages only: a complete statistics reply (with the
+  # transaction id every switch's replies to the same broadcast request
+  # carry) raises one event with its own entries
+  del rig.stats[:]
+  want = {}
+  for P in (Y, Z):
+    n += 1
+    want[id(P["c"])] = [[n]]
+    P["s"].send(port_stats_reply(SIBX, [n], False))
+  if not run_budget(400): return
+  for P, name in ((Y, "Y"), (Z, "Z")):
+    got = [ids for (sk, ids) in rig.stats if sk == id(P["c"])]
+    rep.count("sibling_statistics_events_checked")
+    if got != want[id(P["c"])]:
+      fire("sibling connection's statistics event is not made of its own reply (controller)",
+           "sibling %s: events %r, its reply carried %r" % (name, got, want[id(P["c"])]))
+      return
   # the accept/read loop is still alive: a new switch can connect
   rep.count("loops_alive_checked")
   try:
@@ -650,6 +688,13 @@ def units (side, rng, tier):
   """Yields (label, hostile bytes)."""
   corp, emb = corpus(side, rng)
   quick = tier == "quick"
+  if side == "ctl":
+    # a multipart statistics reply that is never finished, under the
+    # transaction id the siblings' replies use
+    yield "statistics reply left unfinished", port_stats_reply(SIBX, [0xbad], True)
+    yield "statistics reply left unfinished", \
+        port_stats_reply(SIBX, [0xbad], True) + port_stats_reply(SIBX, [0xbad + 1, 0xbad + 2], True)
+    yield "statistics reply left unfinished", port_stats_reply(SIBX, [], True)
   for k, b in corp:
     # the message as it is: valid, but nobody asked for it (and during the
     # handshake there may be no handler for its type at all)
